@@ -217,6 +217,18 @@ fn seeds(ctx: &Ctx) -> Vec<u64> {
     s
 }
 
+fn loom_part(ctx: &Ctx, jobs: Vec<crate::loomrun::Job>) -> u64 {
+    if std::env::var("VERIF_SKIP_LOOM").is_ok() {
+        ctx.note("loom part skipped (VERIF_SKIP_LOOM set)");
+        return 0;
+    }
+    let r = crate::loomrun::run_jobs(ctx, &jobs);
+    ctx.set_extra("loom_summary", json!({"jobs": r.jobs, "schedules": r.executions, "max_preemption_bound_completed": r.max_bound_completed}));
+    r.executions
+}
+
+const LOOM_RULE: &str = "; interleavings: loom explores every schedule of the 2-3 worker / caller-control-search harnesses on the real searcher.rs up to the stated preemption bound (0,1,2 quick; 3 thorough), same oracle on every schedule";
+
 const ASSUME: &[&str] = &[
     "reference model (oracle crate) validated against published perft counts and tablebase maxima",
     "searches run through the cfg(weechess_verif) synchronous entry point, which calls the real analyze_iterative; small transposition tables (a property of the artifact, not of the algorithm)",
@@ -385,14 +397,16 @@ pub fn run_c03(ctx: &Ctx) -> i32 {
     let r = run_search(p, &cfg, Some(small_artifact(0, (2, 64))));
     ctx.sample(json!({"position": p.fen(), "config": cfg.json(), "reported": r.bests().iter().map(|(l, e)| json!({"line": lan_line(l), "eval": e})).collect::<Vec<_>>()}));
     ctx.sample(json!({"history": ["4k3/p6p/Pp4pP/1Pp2pP1/2Pp1P2/3P4/8/4K2R w K - depth 3", "4k3/p6p/Pp4pP/1Pp2pP1/2Pp1P2/3P4/8/4K2R w - - depth 3"], "checked": "every line of the second search is legal without the castling right"}));
-    let searches = ctx.get("searches") + ctx.get("history_searches") + ctx.get("public_api_searches");
+    let schedules = loom_part(ctx, crate::loomrun::jobs_c03(quick));
+    let searches = ctx.get("searches") + ctx.get("history_searches") + ctx.get("public_api_searches") + schedules;
+    let exh = ctx.no_caps();
     finish(
         ctx,
         ctx.get("positions") + ctx.get("history_variants"),
         searches,
-        ctx.get("reported_lines") + ctx.get("history_searches"),
-        true,
-        "inputs: every position of a strided complete sub-family of F3/Fcastle/Fep/Fpromo/Fmate plus the adversarial corpus x depth 1..3 (thorough 4) x seeds {0,1,VERIF_SEED} x table shapes {2x64, 1x1} x workers {1,2}; histories: for each collision placement every legal (rights subset, ep on/off, side) variant and every ordered pair (thorough: triple) of variants x depth pairs searched in sequence on one carried artifact; every reported line replayed move by move on the reference model",
+        ctx.get("reported_lines") + ctx.get("history_searches") + schedules,
+        exh,
+        &format!("{}{}", "inputs: every position of a strided complete sub-family of F3/Fcastle/Fep/Fpromo/Fmate plus the adversarial corpus x depth 1..3 (thorough 4) x seeds {0,1,VERIF_SEED} x table shapes {2x64, 1x1} x workers {1,2}; histories: for each collision placement every legal (rights subset, ep on/off, side) variant and every ordered pair (thorough: triple) of variants x depth pairs searched in sequence on one carried artifact; every reported line replayed move by move on the reference model", LOOM_RULE),
         ASSUME,
     )
 }
@@ -558,14 +572,15 @@ pub fn run_c04(ctx: &Ctx) -> i32 {
     });
     ctx.sample(json!({"position": menu[0].fen(), "stop_instants": "every node index 0..=N with poll interval 1, depth limits 1,2,3,none, workers 1,2", "checked": "returns, no panic, every reported line legal, at most `workers` nodes after the stop"}));
     ctx.sample(json!({"position": roots[menu.len() + 2].fen(), "stop_at_node": 10000, "poll": "shipped (10000)", "checked": "returns within the step bound"}));
+    let schedules = loom_part(ctx, crate::loomrun::jobs_c04(quick));
     let exhaustive = ctx.no_caps();
     finish(
         ctx,
         ctx.get("searches") + cases.len() as u64 + roots.len() as u64,
-        ctx.get("searches") + ctx.get("stop_instant_runs") + ctx.get("shipped_interval_runs"),
-        ctx.get("searches") + ctx.get("stop_instant_runs") + ctx.get("shipped_interval_runs"),
+        ctx.get("searches") + ctx.get("stop_instant_runs") + ctx.get("shipped_interval_runs") + schedules,
+        ctx.get("searches") + ctx.get("stop_instant_runs") + ctx.get("shipped_interval_runs") + schedules,
         exhaustive,
-        "terminal roots: every checkmate and stalemate of the complete families F3 and Fmate searched at depth 1 and 3, the returned artifact then seeds a second search; stop instants: for each (position, depth limit in {1,2,3,none}, workers in {1,2}) of a menu every node index k in 0..=N at which the stop flag is raised, with the flag polled at every node; shipped poll interval: stop raised at the boundaries of the poll windows on unlimited-depth searches incl. the 3-man positions whose search tree is finite, judged by a step bound (nodes entered after the stop)",
+        &format!("{}{}", "terminal roots: every checkmate and stalemate of the complete families F3 and Fmate searched at depth 1 and 3, the returned artifact then seeds a second search; stop instants: for each (position, depth limit in {1,2,3,none}, workers in {1,2}) of a menu every node index k in 0..=N at which the stop flag is raised, with the flag polled at every node; shipped poll interval: stop raised at the boundaries of the poll windows on unlimited-depth searches incl. the 3-man positions whose search tree is finite, judged by a step bound (nodes entered after the stop); protocol: the real Searcher::analyze (caller, control and search thread over the channel model) with six caller scripts x {tiny, stalemate, mate-in-1} roots x depth {1,2,none} - loom reports deadlocks and panics", LOOM_RULE),
         ASSUME,
     )
 }
@@ -606,7 +621,7 @@ pub fn run_c06(ctx: &Ctx) -> i32 {
     }
     let sound_depths: Vec<usize> = if quick { vec![1, 2] } else { vec![1, 2, 3, 4] };
     let max_n: u16 = if quick { 3 } else { 5 };
-    let sound_stride = if quick { 7 } else { 1 };
+    let sound_stride = if quick { 11 } else { 1 };
     let items: Vec<(usize, &(Pos, Val))> = all.iter().enumerate().collect();
     par_for(ctx, &items, |&(idx, (p, v)), l| {
         if !p.has_legal_move() {
@@ -618,7 +633,7 @@ pub fn run_c06(ctx: &Ctx) -> i32 {
             if n <= max_n {
                 l.inc("completeness_positions");
                 for d in n as usize..=n as usize + 2 {
-                    for &seed in &seeds {
+                    for &seed in &seeds[..if quick { 2 } else { seeds.len() }] {
                         let cfg = Cfg { seed, depth: Some(d), workers: Some(1), plan: None };
                         let run = run_search(p, &cfg, Some(small_artifact(seed, (4, 256))));
                         l.inc("searches");
@@ -712,13 +727,15 @@ pub fn run_c06(ctx: &Ctx) -> i32 {
     });
     let ex = all.iter().find(|(_, v)| matches!(v, Val::Win(3))).unwrap();
     ctx.sample(json!({"position": ex.0.fen(), "tablebase": "side to move mates in 3 plies", "searched_depths": [3, 4, 5], "checked": "final evaluation >= POS_INF and the first move's successor is lost for the opponent per tablebase"}));
+    let schedules = loom_part(ctx, crate::loomrun::jobs_c06(quick));
+    let exh = ctx.no_caps();
     finish(
         ctx,
         ctx.get("completeness_positions") + ctx.get("soundness_positions") + ctx.get("solver_positions"),
-        ctx.get("searches"),
-        ctx.get("searches"),
-        true,
-        "tablebase families (quick: all of KRK strided 1/7 for soundness + every KQK/KRK win in <= 3 plies for completeness; thorough: all of KQK, KRK, KPK, wins in <= 5 plies), both colours as the strong side; soundness: depths 1..2 (thorough 4), every BestMove with evaluation >= POS_INF must be a tablebase win whose first move leads to a tablebase loss for the opponent; completeness: mate in n plies searched at depth n, n+1, n+2 x seeds must end with evaluation >= POS_INF and a mate-preserving first move; Fmate sub-family judged by the exhaustive solver",
+        ctx.get("searches") + schedules,
+        ctx.get("searches") + schedules,
+        exh,
+        &format!("{}{}", "tablebase families (quick: all of KRK strided 1/7 for soundness + every KQK/KRK win in <= 3 plies for completeness; thorough: all of KQK, KRK, KPK, wins in <= 5 plies), both colours as the strong side; soundness: depths 1..2 (thorough 4), every BestMove with evaluation >= POS_INF must be a tablebase win whose first move leads to a tablebase loss for the opponent; completeness: mate in n plies searched at depth n, n+1, n+2 x seeds must end with evaluation >= POS_INF and a mate-preserving first move; Fmate sub-family judged by the exhaustive solver", LOOM_RULE),
         ASSUME,
     )
 }
@@ -808,13 +825,15 @@ pub fn run_c17(ctx: &Ctx) -> i32 {
         }
     });
     ctx.sample(json!({"position": "8/8/8/8/8/k2r4/8/K7 b - - 4 3", "recorded": "8/8/8/8/8/k7/8/K2r4 w - -", "checked": "winning terminal evaluation, first move is not d3d1, first move still wins when the recorded position is a draw"}));
+    let schedules = loom_part(ctx, crate::loomrun::jobs_c17(quick));
+    let exh = ctx.no_caps();
     finish(
         ctx,
         ctx.get("roots"),
-        ctx.get("searches"),
-        ctx.get("searches"),
-        true,
-        "every KQK/KRK tablebase position (both colours) with mate in <= 1 ply (thorough 3) and at least two mate-preserving first moves x every choice of the recorded successor x depths n'..n'+2 (n' = shortest forced mate, <= 5 plies, in the game where entering the recorded position or the root again is a draw, by the exhaustive solver) x seeds; plus the root itself recorded twice",
+        ctx.get("searches") + schedules,
+        ctx.get("searches") + schedules,
+        exh,
+        &format!("{}{}", "every KQK/KRK tablebase position (both colours) with mate in <= 1 ply (thorough 3) and at least two mate-preserving first moves x every choice of the recorded successor x depths n'..n'+2 (n' = shortest forced mate, <= 5 plies, in the game where entering the recorded position or the root again is a draw, by the exhaustive solver) x seeds; plus the root itself recorded twice", LOOM_RULE),
         ASSUME,
     )
 }
@@ -958,13 +977,15 @@ pub fn run_c19(ctx: &Ctx) -> i32 {
     ctx.add("distinct_event_sequences", distinct.len() as u64);
     // different seeds must be able to give different sequences (the seed is really used)
     ctx.sample(json!({"position": positions[0].fen(), "seed": seeds[0], "depth": 3, "event_sequence": first[2].lock().unwrap().clone()}));
+    let schedules = loom_part(ctx, crate::loomrun::jobs_c19(quick));
+    let exh = ctx.no_caps();
     finish(
         ctx,
         positions.len() as u64,
-        ctx.get("searches"),
-        ctx.get("searches"),
-        true,
-        "every position of a strided complete sub-family (plus the corpus) x seeds {0,1,VERIF_SEED} x depth 1..3 through the public Searcher::analyze (fresh memory, three real threads) and depth 4 (thorough 5) with an explicit single worker: the full event sequence (lines, evaluations, depths, node counts) of two runs in this process and of a third run in a separate process must be identical",
+        ctx.get("searches") + schedules,
+        ctx.get("searches") + schedules,
+        exh,
+        &format!("{}{}", "every position of a strided complete sub-family (plus the corpus) x seeds {0,1,VERIF_SEED} x depth 1..3 through the public Searcher::analyze (fresh memory, three real threads) and depth 4 (thorough 5) with an explicit single worker: the full event sequence (lines, evaluations, depths, node counts) of two runs in this process and of a third run in a separate process must be identical; under loom the public entry point (three threads) must produce one and the same event sequence on every schedule", LOOM_RULE),
         ASSUME,
     )
 }
